@@ -230,8 +230,8 @@ func (d *DiagDense) DiagFrom(m Matrix) {
 	case RawTriangular:
 		mat := r.RawTriangular()
 		if mat.Diag == blas.Unit {
-			for i := 0; i < n; i += d.mat.Inc {
-				d.mat.Data[i] = 1
+			for i := 0; i < n; i++ {
+				d.setDiag(i, 1)
 			}
 			return
 		}
